@@ -115,14 +115,39 @@ def _main_time_loop():
 
     import ladim
 
+    import ladim.main as real_main
+
     tree = ast.parse((Path(ladim.__file__).parent / "main.py").read_text())
     fn = [n for n in tree.body if isinstance(n, ast.FunctionDef) and n.name == "main"][0]
-    loops = [st for st in fn.body if isinstance(st, (ast.For, ast.While)) and "model.update" in ast.unparse(st)]
+    loops = [k for k, st in enumerate(fn.body) if isinstance(st, (ast.For, ast.While)) and "model.update" in ast.unparse(st)]
     if len(loops) != 1:
         raise RuntimeError("cannot find the time loop of ladim.main.main")
-    src = "def time_loop(model):\n" + "\n".join("    " + ln for ln in ast.unparse(loops[0]).splitlines())
-    ns = {}
-    exec(src, ns)
+    # the statements of main between the construction of the model and the loop belong to the loop (loop variables)
+    built = [k for k, st in enumerate(fn.body[: loops[0]]) if isinstance(st, ast.Assign) and "Model(" in ast.unparse(st.value) and ast.unparse(st.targets[0]) == "model"]
+    first = built[-1] + 1 if built else loops[0]
+    stmts = fn.body[first : loops[0] + 1]
+
+    # every preparatory statement is tried on its own: one that needs a local of main the harness does not have
+    # (the configuration file name, a wall-clock stamp) is skipped, the ones that define loop variables run
+    lines = ["def time_loop(model):"]
+    for st in stmts[:-1]:
+        lines.append("    try:")
+        lines += ["        " + ln for ln in ast.unparse(st).splitlines()]
+        lines.append("    except NameError:")
+        lines.append("        pass")
+    lines += ["    " + ln for ln in ast.unparse(stmts[-1]).splitlines()]
+    ns0 = dict(vars(real_main))
+    # locals of main defined before the model is built (its logger, a wall-clock stamp): plain assignments that can be
+    # evaluated without main's arguments are made available to the loop
+    for st in fn.body[: built[-1] if built else 0]:
+        if isinstance(st, ast.Assign) and all(isinstance(t, ast.Name) for t in st.targets):
+            try:
+                exec(compile(ast.Module([st], []), "<main prelude>", "exec"), ns0)
+            except Exception:  # noqa: BLE001
+                pass
+    exec("\n".join(lines), ns0)
+    time_loop = ns0["time_loop"]
+    ns = {"time_loop": time_loop}
     _LOOP.append(ns["time_loop"])
     return _LOOP[0]
 
@@ -616,6 +641,8 @@ def refusals_bounded(p):
     from ladim.configure import configure
     from ladim.model import Model
 
+    from .refusal import deliberate
+
     cases, failures, samples = 0, [], []
     with Scratch() as d:
         bases = []
@@ -653,6 +680,15 @@ def refusals_bounded(p):
                         pass
                 return "refused", recs
             except BaseException as e:  # noqa: BLE001
+                if deliberate(e):  # an explicit raise of the package: a refusal by another exception class
+                    recs = 0
+                    for f in sub.glob("out*.nc"):
+                        try:
+                            with Dataset(f) as nc:
+                                recs += len(nc.dimensions["time"])
+                        except Exception:  # noqa: BLE001
+                            pass
+                    return "refused", recs
                 return f"crashed with {type(e).__name__}: {str(e)[:80]}", 0
             try:
                 model.finish()
@@ -678,6 +714,7 @@ def refusals_bounded(p):
             "missing dt": lambda cfg, sub: cfg["time"].pop("dt"),
             "stop on the wrong side of start": lambda cfg, sub: cfg["time"].update(start=cfg["time"]["stop"], stop=cfg["time"]["start"]),
             "all release rows after the window": lambda cfg, sub: write_release(sub / "release.rls", [(iso(9), 4.3, 5.2, 5.0)] if not cfg["time"]["time_reversal"] else [(iso(-5), 4.3, 5.2, 5.0)]),
+            "only release row exactly at the stop time (the window is stop-exclusive)": lambda cfg, sub: write_release(sub / "release.rls", [(cfg["time"]["stop"], 4.3, 5.2, 5.0)]),
             "all release rows before the window (discrete)": lambda cfg, sub: (cfg["release"].pop("continuous", None), cfg["release"].pop("release_frequency", None), write_release(sub / "release.rls", [(iso(-5), 4.3, 5.2, 5.0)] if not cfg["time"]["time_reversal"] else [(iso(9), 4.3, 5.2, 5.0)])),
             "release rows without a position": lambda cfg, sub: write_release(sub / "release.rls", [(cfg["time"]["start"], 5.0)], cols=("release_time", "Z")),
             "missing release file": lambda cfg, sub: (sub / "release.rls").unlink(),
@@ -726,6 +763,7 @@ def refusals_bounded(p):
             except SystemExit:
                 pass
             except BaseException as e:  # noqa: BLE001
-                failures.append(dict(fault=name, what=f"crashed with {type(e).__name__}"))
+                if not deliberate(e):
+                    failures.append(dict(fault=name, what=f"crashed with {type(e).__name__}"))
         samples.append(dict(base="reversed, 2 forcing files, continuous release", faults=list(faults)[:6]))
     return dict(cases=cases, failures=failures[:15], samples=samples, bound=f"{len(bases)} base scenarios (forward/reversed x single/multi-file x discrete/continuous) x {len(faults)} single faults + 3 configuration-file faults")
